@@ -487,6 +487,9 @@ type runner struct {
 	sc    *lib.Script
 	fails []lib.OracleFail
 	sp    int // the spelling being run (for messages)
+	// second-use steps (seconduse.go)
+	noBuild bool   // real() stops after Bind
+	step    string // what is being run, for messages
 }
 
 func (r *runner) fail(class, what string, tc *tcase) {
@@ -494,8 +497,11 @@ func (r *runner) fail(class, what string, tc *tcase) {
 		if r.sp != spAny {
 			what = "[documents spelled `" + spellNames[r.sp] + "`] " + what
 		}
+		if r.step != "" {
+			what = "[" + r.step + "] " + what
+		}
 		r.fails = append(r.fails, lib.OracleFail{Class: class, What: what,
-			Replay: "vals " + tc.valsLine() + "\nspec " + tc.specLine() + "\n# (corpus format: put these two lines in corpus/C18/<name>.ops; every case runs in the spellings any, typed, array, decoded)"})
+			Replay: "vals " + tc.valsLine() + "\nspec " + tc.specLine() + "\n# (corpus format: put these two lines in corpus/C18/<name>.ops; every case runs in the spellings any, typed, array, decoded, and then in the second-use chains of seconduse.go)"})
 	}
 }
 
@@ -545,6 +551,9 @@ func (r *runner) real(tc *tcase, u *spec.Unstructured, vals []*value.Value) *obs
 		c.Hit("bind-ok")
 	}
 	if o.bindOut[:2] == "ok" {
+		if r.noBuild {
+			return o
+		}
 		o.envDot = map[string]any{}
 		for k, v := range u.Env {
 			o.envDot[k] = clone(v.Data)
@@ -564,6 +573,61 @@ func (r *runner) real(tc *tcase, u *spec.Unstructured, vals []*value.Value) *obs
 		}
 	}
 	return o
+}
+
+// table: the text/template table of one case as the model is told it – the data values (`dot` lines, index =
+// position) and, for every known string, what text/template does with it on every data value (`render` rows).
+// Later steps of a case add data values and strings; complete() sends what is still missing.
+type table struct {
+	r     *runner
+	tc    *tcase
+	dots  []any
+	known map[string]bool
+	done  map[string]int // string → number of dots its rows cover already
+}
+
+func (t *table) addDot(d any) {
+	t.dots = append(t.dots, d)
+	l := encS(d)
+	t.r.sc.Op("dot "+l, "ok "+l)
+}
+
+func (t *table) addStrs(v any) { strs(v, t.known) }
+
+func (t *table) complete() {
+	r, tc := t.r, t.tc
+	for _, s := range sortedKeys(t.known) {
+		from, seen := t.done[s]
+		if seen && from == len(t.dots) {
+			continue
+		}
+		row := []string{"render", hx(s), "", strconv.Itoa(len(t.dots) - from)}
+		parsed := false
+		for i := from; i < len(t.dots); i++ {
+			p, out, ok := render(s, t.dots[i])
+			parsed = p
+			if ok {
+				row = append(row, strconv.Itoa(i), "o", hx(out))
+				if !strings.Contains(s, "{{") && out != s {
+					r.fail("text-template-assumption", fmt.Sprintf("text/template rendered the action-free string %q as %q", s, out), tc)
+				}
+			} else {
+				row = append(row, strconv.Itoa(i), "e")
+				if !strings.Contains(s, "{{") {
+					r.fail("text-template-assumption", fmt.Sprintf("text/template failed on the action-free string %q", s), tc)
+				}
+			}
+		}
+		if from == len(t.dots) {
+			parsed, _, _ = render(s, nil)
+		}
+		row[2] = "0"
+		if parsed {
+			row[2] = "1"
+		}
+		r.sc.Op(strings.Join(row, " "), "ok")
+		t.done[s] = len(t.dots)
+	}
 }
 
 func (r *runner) run(tc *tcase) {
@@ -627,37 +691,11 @@ func (r *runner) run(tc *tcase) {
 	for _, rt := range tc.raw {
 		strs(rt.doc, all)
 	}
+	tb := &table{r: r, tc: tc, known: all, done: map[string]int{}}
 	for _, d := range dots {
-		l := encS(d)
-		sc.Op("dot "+l, "ok "+l)
+		tb.addDot(d)
 	}
-	for _, s := range sortedKeys(all) {
-		row := []string{"render", hx(s), "", strconv.Itoa(len(dots))}
-		parsed := false
-		for i, d := range dots {
-			p, out, ok := render(s, d)
-			parsed = p
-			if ok {
-				row = append(row, strconv.Itoa(i), "o", hx(out))
-				if !strings.Contains(s, "{{") && out != s {
-					r.fail("text-template-assumption", fmt.Sprintf("text/template rendered the action-free string %q as %q", s, out), tc)
-				}
-			} else {
-				row = append(row, strconv.Itoa(i), "e")
-				if !strings.Contains(s, "{{") {
-					r.fail("text-template-assumption", fmt.Sprintf("text/template failed on the action-free string %q", s), tc)
-				}
-			}
-		}
-		if len(dots) == 0 {
-			parsed, _, _ = render(s, nil)
-		}
-		row[2] = "0"
-		if parsed {
-			row[2] = "1"
-		}
-		sc.Op(strings.Join(row, " "), "ok")
-	}
+	tb.complete()
 
 	// ---- the compared operations
 	for _, b := range ibs {
@@ -776,6 +814,9 @@ func (r *runner) run(tc *tcase) {
 		}
 	}
 	r.sp = spAny
+
+	// ---- second use: one value list for several specs, Bind twice, Bind again with more values
+	r.secondUse(tc, tb)
 
 	// ---- evidence
 	for _, e := range tc.env {
@@ -1295,11 +1336,12 @@ func parseCorpus(lines []string) ([]*tcase, error) {
 // ------------------------------------------------------------------ entry point
 
 func Run(c *lib.Ctx) {
-	c.Rule = "one case = a value set (≤4 values: anonymous / id / name / id+name, namespaces ns1, ns2, \"\"), a spec (namespace, ≤3 env entries by id / name / id+name / anonymous / missing with string, nested, null or scalar data, fields = nil or a JSON-like map of depth ≤4 with nulls, empty and nil containers, scalars, plain and templated strings and keys, occasional malformed templates) and sometimes a direct template.Execute probe; each case in four Go spellings of its documents (any / typed / array / decoded); IsBound (3 value subsets), Bind, Build and Execute run on the real code and on the Lean model; a case is non-trivial when it has an environment or a probe, distinct by its full text"
+	c.Rule = "one case = a value set (≤4 values: anonymous / id / name / id+name, namespaces ns1, ns2, \"\"), a spec (namespace, ≤3 env entries by id / name / id+name / anonymous / missing with string, nested, null or scalar data, fields = nil or a JSON-like map of depth ≤4 with nulls, empty and nil containers, scalars, plain and templated strings and keys, occasional malformed templates) and sometimes a direct template.Execute probe; each case in four Go spellings of its documents (any / typed / array / decoded), then as second use: the spec in the namespaces ns1 → ns2 → \"\" and ns2 → ns1 → \"\" bound and built from ONE shared value slice, and Bind, Bind again, Build, Bind with two more values on one spec; IsBound (3 value subsets), Bind, Build and Execute run on the real code and on the Lean model; a case is non-trivial when it has an environment or a probe, distinct by its full text"
 	c.Assumptions = []string{
 		"text/template is trusted and enters the model as the parameter TextTemplate; the theorems assume only `plain s → parse s ∧ exec s dot = s` (checked on every action-free string of every case by the harness)",
 		"Go's unspecified map iteration order (Meta.Env, reflect MapKeys, mapNode.children) is a parameter of the model; compared observations are order-free (keys sorted, error classes of all failing entries); cases where two templated keys of one map render to the same text are generated only without collisions",
 		"documents are JSON-like (nil, bool, numbers, string, lists, string-keyed maps); numbers are opaque to the walk; nil and empty containers are identified (the code returns the empty container for both)",
+		"second use: Bind is handed one caller-owned slice for several specs (as runtime.load does); after every Bind the slice must hold the same pointers to unchanged values, and every Bind/Build of a chain is compared with the model run on that spec alone (the model has no shared state) and judged by the reference selection/substitution; a re-Bind takes the bound spec as its input; after a failed Bind the chain stops (which entries were bound before the failure is unspecified: Env is a Go map)",
 		"Go spellings: every case runs with its documents (Fields values, env Data, probe documents) spelled four ways: []any / map[string]any only; typed containers ([]string, [][]string, map[string]string, map[string][]string, []map[string]string wherever all leaves are strings); the same with [N]string arrays; and as types.Unmarshal of the encoded spec yields them (all-string lists come back as []string, all-string maps as map[string]string). The model and the reference substitution see the abstract document; a typed run is compared with the model on the same abstract spec (Build only when text/template renders every string of the fields alike on both spellings of the environment: a missing key of a map[string]string renders \"\", of a map[string]any \"<no value>\"); an action-free document must also come back with the Go types it had",
 	}
 	c.Trusted = []string{"text/template (Parse/Execute of each string, recorded by the harness from the real library)"}
